@@ -1,0 +1,215 @@
+//go:build verif
+
+// Read-only observation hooks for the model-based verification harness in
+// /verif. This file is only compiled with `-tags verif`; it adds code and
+// does not change any existing behaviour.
+
+package raft
+
+import (
+	pb "go.etcd.io/raft/v3/raftpb"
+	"go.etcd.io/raft/v3/tracker"
+)
+
+// VerifProgress is a dump of one tracker.Progress.
+type VerifProgress struct {
+	ID               uint64
+	Match, Next      uint64
+	State            string
+	PendingSnapshot  uint64
+	RecentActive     bool
+	MsgAppFlowPaused bool
+	IsLearner        bool
+	SentCommit       uint64
+	Inflights        []tracker.VerifInflight
+	InflightsFull    bool
+}
+
+// VerifRead is one unconfirmed read request of the readOnly queue.
+type VerifRead struct {
+	From  uint64
+	Ctx   []byte
+	Index uint64
+}
+
+// VerifState is a dump of the volatile state of a RawNode.
+type VerifState struct {
+	ID, Term, Vote, Lead uint64
+	State                string
+	IsLearner            bool
+
+	Commit, Applying, Applied uint64
+	ApplyingEntsSize          uint64
+	MaxApplyingEntsSize       uint64
+	ApplyingEntsPaused        bool
+
+	UnstableOffset           uint64
+	UnstableOffsetInProgress uint64
+	UnstableEntries          []*pb.Entry
+	UnstableSnapshot         *pb.Snapshot
+	UnstableSnapInProgress   bool
+
+	FirstIndex, LastIndex, LastTerm uint64
+
+	ConfState *pb.ConfState
+	Progress  []VerifProgress // sorted by id
+	Votes     map[uint64]bool
+
+	Msgs            []*pb.Message
+	MsgsAfterAppend []*pb.Message
+	StepsOnAdvance  []*pb.Message
+
+	LeadTransferee   uint64
+	PendingConfIndex uint64
+	UncommittedSize  uint64
+
+	ReadOnlyAcks        map[uint64]uint64
+	ReadOnlyUnconfirmed []VerifRead
+	ReadOnlyConfirmed   uint64
+	PendingReadIndex    []*pb.Message
+	ReadStates          []ReadState
+
+	ElectionElapsed           int
+	HeartbeatElapsed          int
+	RandomizedElectionTimeout int
+
+	PrevHardState *pb.HardState
+	PrevSoftState SoftState
+}
+
+// VerifState returns a deep-enough copy of the node's volatile state. It does
+// not modify the node.
+func (rn *RawNode) VerifState() VerifState {
+	r := rn.raft
+	l := r.raftLog
+	s := VerifState{
+		ID: r.id, Term: r.Term, Vote: r.Vote, Lead: r.lead,
+		State:     r.state.String(),
+		IsLearner: r.isLearner,
+
+		Commit: l.committed, Applying: l.applying, Applied: l.applied,
+		ApplyingEntsSize:    uint64(l.applyingEntsSize),
+		MaxApplyingEntsSize: uint64(l.maxApplyingEntsSize),
+		ApplyingEntsPaused:  l.applyingEntsPaused,
+
+		UnstableOffset:           l.unstable.offset,
+		UnstableOffsetInProgress: l.unstable.offsetInProgress,
+		UnstableEntries:          append([]*pb.Entry(nil), l.unstable.entries...),
+		UnstableSnapshot:         l.unstable.snapshot,
+		UnstableSnapInProgress:   l.unstable.snapshotInProgress,
+
+		FirstIndex: l.firstIndex(), LastIndex: l.lastIndex(),
+
+		ConfState: r.trk.ConfState(),
+		Votes:     map[uint64]bool{},
+
+		Msgs:            append([]*pb.Message(nil), r.msgs...),
+		MsgsAfterAppend: append([]*pb.Message(nil), r.msgsAfterAppend...),
+		StepsOnAdvance:  append([]*pb.Message(nil), rn.stepsOnAdvance...),
+
+		LeadTransferee:   r.leadTransferee,
+		PendingConfIndex: r.pendingConfIndex,
+		UncommittedSize:  uint64(r.uncommittedSize),
+
+		ReadOnlyAcks:      map[uint64]uint64{},
+		ReadOnlyConfirmed: r.readOnly.confirmedReads,
+		PendingReadIndex:  append([]*pb.Message(nil), r.pendingReadIndexMessages...),
+		ReadStates:        append([]ReadState(nil), r.readStates...),
+
+		ElectionElapsed:           r.electionElapsed,
+		HeartbeatElapsed:          r.heartbeatElapsed,
+		RandomizedElectionTimeout: r.randomizedElectionTimeout,
+
+		PrevHardState: rn.prevHardSt,
+		PrevSoftState: *rn.prevSoftSt,
+	}
+	if t, err := l.term(s.LastIndex); err == nil {
+		s.LastTerm = t
+	}
+	r.trk.Visit(func(id uint64, pr *tracker.Progress) {
+		s.Progress = append(s.Progress, VerifProgress{
+			ID: id, Match: pr.Match, Next: pr.Next,
+			State:            pr.State.String(),
+			PendingSnapshot:  pr.PendingSnapshot,
+			RecentActive:     pr.RecentActive,
+			MsgAppFlowPaused: pr.MsgAppFlowPaused,
+			IsLearner:        pr.IsLearner,
+			SentCommit:       pr.VerifSentCommit(),
+			Inflights:        pr.Inflights.VerifDump(),
+			InflightsFull:    pr.Inflights.Full(),
+		})
+	})
+	for id, v := range r.trk.Votes {
+		s.Votes[id] = v
+	}
+	for id, v := range r.readOnly.acks {
+		s.ReadOnlyAcks[id] = v
+	}
+	for _, rr := range r.readOnly.unconfirmedReads {
+		var ctx []byte
+		if es := rr.req.GetEntries(); len(es) > 0 {
+			ctx = es[0].GetData()
+		}
+		s.ReadOnlyUnconfirmed = append(s.ReadOnlyUnconfirmed, VerifRead{From: rr.req.GetFrom(), Ctx: ctx, Index: rr.index})
+	}
+	return s
+}
+
+// VerifSetRandomizedElectionTimeout pins the randomized election timeout so
+// that Tick-driven elections are a function of the harness' seed.
+func (rn *RawNode) VerifSetRandomizedElectionTimeout(v int) {
+	rn.raft.randomizedElectionTimeout = v
+}
+
+// VerifLog exposes the unexported raftLog to the log-storage conformance
+// driver (property C18). All methods delegate to the real implementation.
+type VerifLog struct{ l *raftLog }
+
+// VerifNewLog wraps newLogWithSize.
+func VerifNewLog(s Storage, maxApplying uint64) *VerifLog {
+	return &VerifLog{l: newLogWithSize(s, getLogger(), entryEncodingSize(maxApplying))}
+}
+
+func (v *VerifLog) Append(ents ...*pb.Entry) uint64 { return v.l.append(ents...) }
+func (v *VerifLog) MaybeAppend(leaderTerm, prevIndex, prevTerm, committed uint64, ents ...*pb.Entry) (uint64, bool) {
+	return v.l.maybeAppend(logSlice{term: leaderTerm, prev: entryID{term: prevTerm, index: prevIndex}, entries: ents}, committed)
+}
+func (v *VerifLog) CommitTo(i uint64)        { v.l.commitTo(i) }
+func (v *VerifLog) AppliedTo(i, size uint64) { v.l.appliedTo(i, entryEncodingSize(size)) }
+func (v *VerifLog) AcceptApplying(i, size uint64, allowUnstable bool) {
+	v.l.acceptApplying(i, entryEncodingSize(size), allowUnstable)
+}
+func (v *VerifLog) AcceptUnstable()               { v.l.acceptUnstable() }
+func (v *VerifLog) StableTo(index, term uint64)   { v.l.stableTo(entryID{term: term, index: index}) }
+func (v *VerifLog) StableSnapTo(i uint64)         { v.l.stableSnapTo(i) }
+func (v *VerifLog) Restore(s *pb.Snapshot)        { v.l.restore(s) }
+func (v *VerifLog) Term(i uint64) (uint64, error) { return v.l.term(i) }
+func (v *VerifLog) FirstIndex() uint64            { return v.l.firstIndex() }
+func (v *VerifLog) LastIndex() uint64             { return v.l.lastIndex() }
+func (v *VerifLog) Committed() uint64             { return v.l.committed }
+func (v *VerifLog) Applied() uint64               { return v.l.applied }
+func (v *VerifLog) Applying() uint64              { return v.l.applying }
+func (v *VerifLog) Slice(lo, hi, maxSize uint64) ([]*pb.Entry, error) {
+	return v.l.slice(lo, hi, entryEncodingSize(maxSize))
+}
+func (v *VerifLog) Entries(i, maxSize uint64) ([]*pb.Entry, error) {
+	return v.l.entries(i, entryEncodingSize(maxSize))
+}
+func (v *VerifLog) NextUnstableEnts() []*pb.Entry { return v.l.nextUnstableEnts() }
+func (v *VerifLog) NextCommittedEnts(allowUnstable bool) []*pb.Entry {
+	return v.l.nextCommittedEnts(allowUnstable)
+}
+func (v *VerifLog) HasNextOrInProgressSnapshot() bool  { return v.l.hasNextOrInProgressSnapshot() }
+func (v *VerifLog) NextUnstableSnapshot() *pb.Snapshot { return v.l.nextUnstableSnapshot() }
+func (v *VerifLog) FindConflictByTerm(index, term uint64) (uint64, uint64) {
+	return v.l.findConflictByTerm(index, term)
+}
+func (v *VerifLog) MatchTerm(index, term uint64) bool {
+	return v.l.matchTerm(entryID{term: term, index: index})
+}
+func (v *VerifLog) IsUpToDate(index, term uint64) bool {
+	return v.l.isUpToDate(entryID{term: term, index: index})
+}
+func (v *VerifLog) UnstableOffset() uint64           { return v.l.unstable.offset }
+func (v *VerifLog) UnstableOffsetInProgress() uint64 { return v.l.unstable.offsetInProgress }
+func (v *VerifLog) UnstableLen() int                 { return len(v.l.unstable.entries) }
